@@ -17,11 +17,11 @@ CHECKS = {
          "Trusted: interpreter; the hook model of hash order (per-set-instance memoized order; complete re-shuffles on table growth not modelled). Programs in which an explored execution falls off the end of the text are outside the quantifier.",
          "DESIGN.md 3 C03"),
  "C09": ("bounded-exhaustive enumeration of statement layouts; oracle = independent locator and token spans known by construction",
-         "40 statement kinds (every node constructor, label, directives, malformed statements, statements that draw a specific diagnostic) x 4 positions x 5 indentations x 3 trailing texts x 3 line companies x 3 line endings x {base, included file} = 18360 layouts: every token of the real lexer, every node range, every parse error and every diagnostic of the full pipeline must have (line, column) equal to the harness locator's values for its raw offsets, lie inside the file on one line, and designate exactly the token(s) the layout generator placed there (register operand, label, or mnemonic through last operand).",
-         "Trusted: locator and the mini-scanner for the 40 statement texts. Zero-based line/column and inclusive end offsets (the convention of the repository's own JSON expectations). CLI rendering of the same positions is checked under C18.",
+         "44 statement kinds (every node constructor, label, directives, malformed statements, statements that draw a specific diagnostic) x 4 positions x 5 indentations x 3 trailing texts x 3 line companies x 3 line endings x {base, included file} = 18360 layouts: every token of the real lexer, every node range, every parse error and every diagnostic of the full pipeline must have (line, column) equal to the harness locator's values for its raw offsets, lie inside the file on one line, and designate exactly the token(s) the layout generator placed there (register operand, label, or mnemonic through last operand).",
+         "Trusted: locator and the mini-scanner for the 44 statement texts. Zero-based line/column and inclusive end offsets (the convention of the repository's own JSON expectations). CLI rendering of the same positions is checked under C18.",
          "DESIGN.md 3 C09"),
  "C10": ("exhaustive hash-order schedule exploration (deviation-bounded, stateless re-execution through the rva_verif choice points) x all file-UUID orders; fresh-seed replays and repeated real-binary runs as secondary net",
-         "22 order-stress programs built from the anchors (several undefined labels, equally near candidate operands, multi-label entries, 2-3 returns, entries with several predecessors, shared tails, 2-3 files with diagnostics in each) plus the program pool: every schedule of the controlled hash-order decisions within the deviation bound (whole tree when small) x every relative order of the file UUIDs must give the same sequence of (code, file, range, title, level, description, related information); no two items of a result are equal; RVParser::run gives the same items; each schedule is replayed twice on freshly parsed input (new random node UUIDs and hash seeds) and the rva binary's --json/--compact/pretty (+-all-files) output is byte-identical across the explored schedules, all file orders and 8/3 runs per mode with true random seeds.",
+         "35 order-stress programs built from the anchors (several undefined labels, equally near candidate operands, multi-label entries, 2-3 returns, entries with several predecessors, shared tails, 2-3 files with diagnostics in each) plus the program pool: every schedule of the controlled hash-order decisions within the deviation bound (whole tree when small) x every relative order of the file UUIDs must give the same sequence of (code, file, range, title, level, description, related information); no two items of a result are equal; RVParser::run gives the same items; each schedule is replayed twice on freshly parsed input (new random node UUIDs and hash seeds) and the rva binary's --json/--compact/pretty (+-all-files) output is byte-identical across the explored schedules, all file orders and 8/3 runs per mode with true random seeds.",
          "Exhaustive only at the hooked iteration site (H2, DFS successor order) and over file-UUID orders; the sites made deterministic by the C10 fixes lost their choice points (H3-H5), so a regression there is caught only by the fresh-seed replays and random-seed runs (sampling, stated as such).",
          "DESIGN.md 3 C10"),
  "C11": ("bounded-exhaustive enumeration of call-graph/label arrangements x hash-order schedules; function table compared with an oracle computed from the AST and from identity-reachability over the final edges",
@@ -33,7 +33,7 @@ CHECKS = {
          "Trusted: the canonical dump covers everything the passes read (states with equal dumps are merged). Canonical hash-order schedule only.",
          "DESIGN.md 3 C12"),
  "C01": ("bounded-exhaustive program enumeration; each program analysed by the real pipeline and executed by a reference RV32IM interpreter with an activation monitor from every initial state; every claim evaluated on every step",
-         "Explicit-state exploration of (program, initial state, step): every program of the kernel family (single-transfer: each of ~1650 instructions after every state-setting prefix of length <= 1 quick / <= 2 thorough; all sequences over a 27-symbol alphabet (incl. sub-word stack accesses) up to length 3/4; all control-flow sequences over 12/14 symbols up to length 4/5; 12 loop/diamond/irreducible/recursion/multi-return/exit-ecall skeletons; each as main program and as called function) is analysed by the real Manager::gen_full_cfg and executed by the harness's interpreter from 8/32 initial states to exit or a 256-step horizon; at every arrival/departure every Constant / Address / entry-value+k claim on registers and stack slots is compared with the machine. The model (interpreter) trace is bound 1:1 to the implementation's CFG nodes.",
+         "Explicit-state exploration of (program, initial state, step): every program of the kernel family (single-transfer: each of ~1650 instructions after every state-setting prefix of length <= 1 quick / <= 2 thorough; all sequences over a 27-symbol alphabet (incl. sub-word stack accesses) up to length 3/4; all control-flow sequences over 12/14 symbols up to length 4/5; 16 loop/diamond/irreducible/recursion/multi-return/exit-ecall/backward-cycle skeletons; CSR sequences (13 symbols, length <= 4/5) and extreme-stack sequences (8 symbols); each as main program and as called function) is analysed by the real Manager::gen_full_cfg and executed by the harness's interpreter from 8/32 initial states to exit or a 256-step horizon; at every arrival/departure every Constant / Address / entry-value+k claim on registers and stack slots is compared with the machine. The model (interpreter) trace is bound 1:1 to the implementation's CFG nodes.",
          "Trusted: the reference interpreter (two cross-checked ALUs) and the activation monitor that stops checking where an execution leaves the property's supported subset. Programs longer than the bounds, immediates outside the alphabets and the un-named claim kinds (memory-at-register, CSR) are not covered.",
          "DESIGN.md 3 C01"),
  "C04": ("bounded-exhaustive enumeration of convention-conforming programs (by construction, confirmed per member by a dynamic convention monitor); oracle: zero diagnostics",
@@ -49,8 +49,8 @@ CHECKS = {
          "Termination is decided by work bounds (pass sweeps <= 4*nodes+32, <= 64 import requests) and wall watchdogs (10 s CLI, 120 s per case); polynomial time is checked as absolute envelopes at three scales, not proved.",
          "DESIGN.md 3 C06"),
  "C07": ("bounded-exhaustive enumeration of files over a line alphabet; coverage oracle by independent locator, containment oracle differential (file vs file with the bad line deleted)",
-         "All files of 1..4 (quick) / 1..5 (thorough) lines over 17 line kinds (8 well-formed, 9 malformed) x {LF, CRLF} x {final newline, none} x {single file, tail in an included file} go through the real lexer+parser; every line with content must be the line (by raw offset, via the harness's own locator) of a node or of a parse error, well-formed lines draw no error, and for every malformed line the nodes/errors of all other lines equal those of the file with that line deleted.",
-         "Trusted: locator; the 17 line kinds are representatives (one statement per line).",
+         "All files of 1..4 (quick) / 1..5 (thorough) lines over 23 line kinds (9 well-formed, 14 malformed) x {LF, CRLF} x {final newline, none} x {single file, tail in an included file} go through the real lexer+parser; every line with content must be the line (by raw offset, via the harness's own locator) of a node or of a parse error, well-formed lines draw no error, and for every malformed line the nodes/errors of all other lines equal those of the file with that line deleted.",
+         "Trusted: locator; the 23 line kinds are representatives (one statement per line).",
          "DESIGN.md 3 C07"),
  "C08": ("bounded-exhaustive enumeration of the decode table and folding grid against an independent RV32IM reference (explicit-state, model = manual's decode table + ALU)",
          "Complete enumeration of a finite space: every entry of a decode table transcribed from the RISC-V manual (mnemonic x operand form x 7 registers per position x boundary immediates; ~13k texts) is parsed by the real parser and compared with the manual's meaning - structurally, or, for pseudo-instructions, by executing both on every pair of a 66-value boundary grid; every foldable mnemonic x every grid pair goes through the real MathOp::operate in a release and an overflow-checked build. Model traces (expected instruction / ALU result) are compared 1:1 with the implementation.",
@@ -62,7 +62,7 @@ CHECKS = {
          "Trusted: styled printer and role mapping (implicit registers of pseudo-instructions are identified with the explicit operand of their expansion). Rewrites outside the list (macros, .eqv) are unsupported by the tool.",
          "DESIGN.md 3 C13"),
  "C14": ("bounded-exhaustive enumeration of register-class permutation orbits and label renamings per template; relational (equivariance) oracle",
-         "Templates = program pool (every 499th / 41st member of the quick S family, clean and injected): the full orbit of the temporaries a template mentions (all injective assignments of <= 3 slots to t0-t6), the full orbit of its saved registers (<= 3 slots to s0-s11, up to 1320) and label renamings from an 8-identifier pool; the diagnostics of every renamed program, compared by (code, statement index, operand role, register mapped back), must equal the template's.",
+         "Templates = program pool (every 887th / 97th member of the quick S family, clean and injected): the full orbit of the temporaries a template mentions (all injective assignments of <= 3 slots to t0-t6), the full orbit of its saved registers (<= 3 slots to s0-s11, up to 1320) and label renamings from an 8-identifier pool; the diagnostics of every renamed program, compared by (code, statement index, operand role, register mapped back), must equal the template's.",
          "Trusted: renaming on the harness AST. Canonical hash-order schedule (label hash order is C10's subject).",
          "DESIGN.md 3 C14"),
  "C15": ("bounded-exhaustive enumeration of (program x cut into an include tree x reader fault sequence); differential oracle against the pasted file through a flattener; CLI conformance on materialised trees",
@@ -78,7 +78,7 @@ CHECKS = {
          "Trusted: the harness's literal semantics (accept iff well-formed and -2^31 <= v <= 2^32-1; value v mod 2^32; lui 0..2^20-1). Values between the boundary points are not enumerated. Leading-zero decimals, negative lui operands and CSR numbers > 4095 get no verdict.",
          "DESIGN.md 3 C17"),
  "C18": ("bounded-exhaustive enumeration of (program x 16 CLI flag configurations) with format parsers; channel-agreement oracle against the library entry point",
-         "The 22 order-stress programs (incl. multi-file), one file per malformed line kind, the analysis-failure programs, tab-indented code and the program pool x all 16 combinations of --json/--compact/--no-color/--all-files of the rva binary plus RVParser::run: parsers for the compact line grammar, the pretty block grammar and the JSON shape extract (severity, title, file, line, columns); for equal file selection all channels must agree with the library; JSON must have exactly the documented keys and consistent raw offsets; titles non-empty; severity fixed per code; items sorted within a file; no escape sequences under --no-color; correct 'other files' counter; every pretty excerpt shows the item's line with the marker under the reported columns and of the reported length.",
+         "The 35 order-stress programs (incl. multi-file), one file per malformed line kind, the analysis-failure programs, tab-indented code and the program pool x all 16 combinations of --json/--compact/--no-color/--all-files of the rva binary plus RVParser::run: parsers for the compact line grammar, the pretty block grammar and the JSON shape extract (severity, title, file, line, columns); for equal file selection all channels must agree with the library; JSON must have exactly the documented keys and consistent raw offsets; titles non-empty; severity fixed per code; items sorted within a file; no escape sequences under --no-color; correct 'other files' counter; every pretty excerpt shows the item's line with the marker under the reported columns and of the reported length.",
          "Trusted: the three format parsers. JSON is compared with the all-files selection (it has no base-only selection). File-UUID order independence of the same outputs is decided under C10.",
          "DESIGN.md 3 C18"),
  "C19": ("bounded-exhaustive enumeration of dump values (all variants x boundary parameters, all pairs for injectivity) and of kernel-program dumps with single-fact perturbations",
